@@ -469,7 +469,7 @@ def degraded_campaign(ctx, camp):
         for workers in (2, 3, 1):
             for exc_kind, failing, max_errors in (("Exception", [], 0), ("Exception", [nodes[0]], 0), ("Exception", [nodes[1]], 1), ("BaseException", [nodes[0]], None),
                                                   ("SystemExit", [nodes[1]], 0), ("Exception", [nodes[0]], 2), ("Exception", [nodes[1]], None)):
-                for si in range(ctx.n(14, 40) if failing and workers > 1 else ctx.n(4, 12)):
+                for si in range(ctx.n(14, 40) if workers > 1 and (failing or "fanin" in name or "join" in name or name == "diamond") else ctx.n(4, 12)):
                     jobs.append((name, nodes, edges, workers, max_errors, failing, exc_kind, si))
     for gi in range(ctx.n(20, 150)):
         fam, nodes, edges = gen_graph(rng, maxn=7)
